@@ -438,6 +438,9 @@ impl CommandBuilder<'_> {
             eprintln!("{command:?}");
         }
 
+        #[cfg(feature = "verif-hooks")]
+        let mut command = verif_hooks::CommandShim(command);
+
         match &self.options.action {
             ExecAction::Command(_) => match command.status() {
                 Ok(status) => {
@@ -1062,6 +1065,168 @@ pub fn xargs_main(args: &[&str]) -> i32 {
                 }
             } else {
                 1
+            }
+        }
+    }
+}
+
+/// Entry points for out-of-tree verification harnesses. Nothing here is
+/// reachable unless the crate is built with `--features verif-hooks`.
+#[cfg(feature = "verif-hooks")]
+pub mod verif_hooks {
+    use super::*;
+    use std::cell::RefCell;
+    use std::collections::VecDeque;
+    use std::process::ExitStatus;
+
+    /// A `Read` that hands out caller-chosen chunks, one per `read()` call
+    /// (a chunk longer than the caller's buffer is delivered in pieces).
+    pub struct ChunkReader {
+        chunks: VecDeque<Vec<u8>>,
+    }
+
+    impl ChunkReader {
+        pub fn new(chunks: Vec<Vec<u8>>) -> Self {
+            Self {
+                chunks: chunks.into_iter().filter(|c| !c.is_empty()).collect(),
+            }
+        }
+    }
+
+    impl Read for ChunkReader {
+        fn read(&mut self, buf: &mut [u8]) -> io::Result<usize> {
+            let Some(mut chunk) = self.chunks.pop_front() else {
+                return Ok(0);
+            };
+            let n = chunk.len().min(buf.len());
+            buf[..n].copy_from_slice(&chunk[..n]);
+            if n < chunk.len() {
+                self.chunks.push_front(chunk.split_off(n));
+            }
+            Ok(n)
+        }
+    }
+
+    fn arg_bytes(arg: &OsStr) -> Vec<u8> {
+        #[cfg(unix)]
+        {
+            use std::os::unix::ffi::OsStrExt;
+            arg.as_bytes().to_vec()
+        }
+        #[cfg(not(unix))]
+        {
+            arg.to_string_lossy().into_owned().into_bytes()
+        }
+    }
+
+    /// Runs the whitespace reader (`delimiter == None`) or the byte-delimited
+    /// reader over the given chunked stream until it reports the end of input
+    /// or an error. Returns `(bytes, hard_terminated)` per argument and the
+    /// error text, if any.
+    pub fn read_args(
+        delimiter: Option<u8>,
+        chunks: Vec<Vec<u8>>,
+    ) -> (Vec<(Vec<u8>, bool)>, Option<String>) {
+        let rd = ChunkReader::new(chunks);
+        let mut reader: Box<dyn ArgumentReader> = match delimiter {
+            Some(d) => Box::new(ByteDelimitedArgumentReader::new(rd, d)),
+            None => Box::new(WhitespaceDelimitedArgumentReader::new(rd)),
+        };
+        let mut out = vec![];
+        loop {
+            match reader.next() {
+                Ok(Some(arg)) => out.push((
+                    arg_bytes(&arg.arg),
+                    arg.kind == ArgumentKind::HardTerminated,
+                )),
+                Ok(None) => return (out, None),
+                Err(e) => return (out, Some(e.to_string())),
+            }
+        }
+    }
+
+    pub fn parse_delimiter(s: &str) -> Result<u8, String> {
+        super::parse_delimiter(s)
+    }
+
+    /// Scripted outcome of one command execution.
+    #[derive(Clone, Debug)]
+    pub enum Outcome {
+        /// The child exits with this status.
+        Exit(i32),
+        /// The child is killed by this signal.
+        Signal(i32),
+        /// Spawning fails with `ErrorKind::NotFound`.
+        NotFound,
+        /// Spawning fails with another error (`PermissionDenied`).
+        CannotRun,
+    }
+
+    #[derive(Default)]
+    pub struct Script {
+        /// Outcomes of successive executions; when exhausted, `Exit(0)`.
+        pub outcomes: VecDeque<Outcome>,
+        /// `[program, args...]` of every execution, in order.
+        pub log: Vec<Vec<Vec<u8>>>,
+    }
+
+    thread_local! {
+        static SCRIPT: RefCell<Option<Script>> = const { RefCell::new(None) };
+    }
+
+    /// Installs a script: from now on (on this thread) `xargs_main` records
+    /// the commands it would run instead of spawning them.
+    pub fn install_script(outcomes: Vec<Outcome>) {
+        SCRIPT.with(|s| {
+            *s.borrow_mut() = Some(Script {
+                outcomes: outcomes.into(),
+                log: vec![],
+            });
+        });
+    }
+
+    /// Removes the script and returns the recorded executions.
+    pub fn take_script() -> Option<Script> {
+        SCRIPT.with(|s| s.borrow_mut().take())
+    }
+
+    /// Wraps the `Command` built by `CommandBuilder::execute`.
+    pub struct CommandShim(pub Command);
+
+    impl std::fmt::Debug for CommandShim {
+        fn fmt(&self, f: &mut std::fmt::Formatter<'_>) -> std::fmt::Result {
+            self.0.fmt(f)
+        }
+    }
+
+    impl CommandShim {
+        pub fn status(&mut self) -> io::Result<ExitStatus> {
+            let scripted = SCRIPT.with(|s| {
+                let mut s = s.borrow_mut();
+                let script = s.as_mut()?;
+                let mut argv = vec![arg_bytes(self.0.get_program())];
+                argv.extend(self.0.get_args().map(arg_bytes));
+                script.log.push(argv);
+                Some(script.outcomes.pop_front().unwrap_or(Outcome::Exit(0)))
+            });
+            match scripted {
+                None => self.0.status(),
+                #[cfg(unix)]
+                Some(Outcome::Exit(code)) => {
+                    use std::os::unix::process::ExitStatusExt;
+                    Ok(ExitStatus::from_raw((code & 0xff) << 8))
+                }
+                #[cfg(unix)]
+                Some(Outcome::Signal(sig)) => {
+                    use std::os::unix::process::ExitStatusExt;
+                    Ok(ExitStatus::from_raw(sig & 0x7f))
+                }
+                #[cfg(not(unix))]
+                Some(Outcome::Exit(_) | Outcome::Signal(_)) => self.0.status(),
+                Some(Outcome::NotFound) => Err(io::Error::from(io::ErrorKind::NotFound)),
+                Some(Outcome::CannotRun) => {
+                    Err(io::Error::from(io::ErrorKind::PermissionDenied))
+                }
             }
         }
     }
